@@ -399,6 +399,15 @@ def main():
     tot = merge_summaries(sums)
 
     # 5. classify
+    # DESIGN section 6: a timed-out case is re-run alone before it is reported (a loaded machine can stall a worker for
+    # longer than the per-case timeout; a genuine hang reproduces)
+    rerun_ok = 0
+    for x in [y for y in all_r if y["kind"] in ("VIOLATION", "SPECFAIL", "MISMATCH") and y["line"].rstrip().endswith("=> hang")][:40]:
+        r_, s_, raw_ = exec_lines(x["bin"], [x["line"]], known_ids, timeout=60)
+        if s_ and s_.get("lines") == 1 and s_.get("pass") == 1:
+            all_r.remove(x); rerun_ok += 1
+    if rerun_ok:
+        notes.append("%d case(s) reported as hang passed when re-run alone (machine load); not counted as failures" % rerun_ok)
     fails = [x for x in all_r if x["kind"] in ("VIOLATION", "SPECFAIL", "MISMATCH")]
     # a case reported as a hang is re-run alone with a generous limit before it is believed (the per-case limit is
     # wall-clock, and the machine may be loaded)
